@@ -213,6 +213,9 @@ def run(ctx):
             if M.callee_name(c).startswith("ruma_identifiers_validation::") and len(c["args"]) == 2 and c["args"][1].get("k") == "const":
                 consts.add(c["args"][1].get("v"))
         ctx.check(byte in consts, "C10.constants", f"C10.constants:sigil:{mod}", w.where(fv), bad_msg=f"sigil byte passed by {mod}::validate is {consts}, expected {byte} ({chr(byte)!r})")
+    if ctx.tier == "thorough":
+        from .. import witness
+        witness.check(ctx, "C10.witness", {"C10FromBorrowed": "UserId::from_borrowed is callable from another crate: identifiers can be created without validation", "C10FromBox": "RoomAliasId::from_box is callable from another crate: identifiers can be created without validation"})
     from . import controls
     controls.sites(ctx, "C10.sites")
     ctx.assumptions += ["the exact accepted language of each validator (e.g. ports of 1-5 digits) is not decided statically; F13 (`+80`, `000080` accepted as port) is recorded in DESIGN.md as read, not rule-derived"]
